@@ -39,8 +39,16 @@ def build_jobs(tier, seed):
         if text in seen:
             return
         seen.add(text)
-        jobs.append({'id': len(jobs), 'text': text, 'bm': bm, 'cases': byte_inputs if bm else text_inputs,
-                     'meta': {'ctx': ctxname, 'depth': G.depth(e), 'kinds': sorted(G.kinds(e))}})
+        job = {'id': len(jobs), 'text': text, 'bm': bm, 'cases': byte_inputs if bm else text_inputs,
+               'meta': {'ctx': ctxname, 'depth': G.depth(e), 'kinds': sorted(G.kinds(e))}}
+        # the intended expression (the generator's own tree) through the Lean pipeline `prepare` + `peg`: the reference does
+        # not depend on what the real translator made of the description
+        from props import c04
+        _, rules = G.grammar_text(e, bm)
+        decls = [('rule', 'start', e)] + [('rule', k, v) for k, v in rules.items()]
+        req, rxs = c04.prep_request(decls, bm)
+        job.update({'prep_request': req, 'prep_rx': rxs, 'prep_entry': 'start'})
+        jobs.append(job)
 
     # (a) exhaustive: every depth<=1 expression over the leaf basis in every enclosing context
     d1 = G.depth1_exprs()
